@@ -67,9 +67,9 @@ CHECKS["C11"] = _c(
 
 CHECKS["C08"] = _c(
     "fault_enumeration",
-    "runtime monitoring with fault injection: every single fault of a reference-encoded chunk-signed upload is injected, the recording backend shows delivered bytes and terminal state, a reference decoder applied to the faulty bytes gives the expected outcome; transport-fault injection on request bodies",
+    "runtime monitoring with fault injection: every single fault of a reference-encoded chunk-signed upload is injected, the recording backend shows delivered bytes and terminal state, a reference decoder applied to the faulty bytes gives the expected outcome; transport-fault injection on request bodies; overlap oracle (in flight with other uploads = alone)",
     "harness (raw request driver, framed bodies)",
-    "For generated uploads (0..40 chunks, 1 B..64 KiB, PutObject and UploadPart) the check enumerates bit flips in data / size field / signature of every chunk, hex-case flip of a signature letter, resized, deleted, duplicated, swapped and spliced chunks, truncation at every byte offset (uploads <= 2 KiB) or every token boundary +-1, bytes after the final chunk, wrong or tampered decoded length, each under one of six transport framings incl. token-splitting frames and Pending schedules; delivered bytes must be a prefix of the verified chunks, the body may end cleanly only for a complete upload of the declared length, and the backend must see the decoded length as content length. Held on the fault runs observed. Transport-fault leg: the body of every valid instance also fails in transit instead of yielding frame k (std::io::Error of six kinds, an error wrapping one, the harness's own type): the backend must not run, or must be handed a stream that ends with an error after a prefix of the payload.",
+    "For generated uploads (0..40 chunks, 1 B..64 KiB, PutObject and UploadPart) the check enumerates bit flips in data / size field / signature of every chunk, hex-case flip of a signature letter, resized, deleted, duplicated, swapped and spliced chunks, truncation at every byte offset (uploads <= 2 KiB) or every token boundary +-1, bytes after the final chunk, wrong or tampered decoded length, each under one of six transport framings incl. token-splitting frames and Pending schedules; delivered bytes must be a prefix of the verified chunks, the body may end cleanly only for a complete upload of the declared length, and the backend must see the decoded length as content length. Held on the fault runs observed. Transport-fault leg: the body of every valid instance also fails in transit instead of yielding frame k (std::io::Error of six kinds, an error wrapping one, the harness's own type): the backend must not run, or must be handed a stream that ends with an error after a prefix of the payload. Overlap leg: 2-6 uploads of several signers (intact, corrupted, with a neighbour's chunk spliced in) are served in flight together on one service with their chunks interleaved; each must be delivered or refused exactly as when alone.",
     "Trusted: reference chunk encoder/decoder (AWS 65 KiB + 1 KiB example at start-up). One fault per run; the recording backend drains the body to its first error.",
     "DESIGN.md 3/C08",
 )
